@@ -124,4 +124,73 @@ theorem read_sep (text : String) (c : Image) (h : read text = some c) : Separate
     · cases h
   · cases h
 
+/-! ### canonical images are fixed points of `canon` -/
+
+theorem sep_tail (s : Nat × Bytes) (rest : List (Nat × Bytes)) (h : Separated (s :: rest)) : Separated rest := by
+  cases rest with
+  | nil => trivial
+  | cons t r => exact h.2.2
+
+theorem sep_head_nonempty (s : Nat × Bytes) (rest : List (Nat × Bytes)) (h : Separated (s :: rest)) : s.2 ≠ [] := by
+  cases rest with
+  | nil => exact h
+  | cons t r => exact h.1
+
+theorem sep_all_nonempty : ∀ (c : List (Nat × Bytes)), Separated c → ∀ x ∈ c, x.2 ≠ [] := by
+  intro c
+  induction c with
+  | nil => intro _ x hx; simp at hx
+  | cons s rest ih =>
+    intro h x hx
+    rcases List.mem_cons.mp hx with hx | hx
+    · subst hx; exact sep_head_nonempty _ rest h
+    · exact ih (sep_tail s rest h) x hx
+
+theorem sortSegs_sep : ∀ (c : List (Nat × Bytes)), Separated c → sortSegs c = c := by
+  intro c
+  induction c with
+  | nil => intro _; rfl
+  | cons s rest ih =>
+    intro h
+    refine head_le_of_sorted_cons s rest (ih (sep_tail s rest h)) ?_
+    intro y ys hy
+    subst hy
+    exact Nat.le_of_lt (Nat.lt_of_le_of_lt (Nat.le_add_right _ _) h.2.1)
+
+theorem mergeGo_sep_id : ∀ (rest : List (Nat × Bytes)) (s0 e : Nat) (accs : List Bytes) (acc : List (Nat × Bytes)),
+    Separated rest → (∀ y ys, rest = y :: ys → e < y.1) →
+    mergeGo (s0, e, accs) acc rest = some (acc.reverse ++ (s0, accs.reverse.flatten) :: rest) := by
+  intro rest
+  induction rest with
+  | nil => intro s0 e accs acc _ _; simp [mergeGo]
+  | cons t rest' ih =>
+    intro s0 e accs acc hsep hgap
+    obtain ⟨s, b⟩ := t
+    have he : e < s := hgap (s, b) rest' rfl
+    have hgap' : ∀ y ys, rest' = y :: ys → s + b.length < y.1 := by
+      intro y ys hy; subst hy; exact hsep.2.1
+    simp only [mergeGo]
+    rw [if_neg (by omega), if_neg (by omega), ih s (s + b.length) [b] _ (sep_tail _ rest' hsep) hgap']
+    simp
+
+/-- a canonical image is its own canonical form -/
+theorem canon_fixed (c : Image) (h : Separated c) : canon c = some c := by
+  unfold canon
+  have hf : c.filter (fun s => s.2 ≠ []) = c := by
+    rw [List.filter_eq_self]; intro x hx; simpa using sep_all_nonempty c h x hx
+  rw [hf, sortSegs_sep c h]
+  cases c with
+  | nil => rfl
+  | cons t rest =>
+    obtain ⟨s, b⟩ := t
+    have hgap' : ∀ y ys, rest = y :: ys → s + b.length < y.1 := by
+      intro y ys hy; subst hy; exact h.2.1
+    simp only [mergeSorted]
+    rw [mergeGo_sep_id rest s (s + b.length) [b] [] (sep_tail _ rest h) hgap']
+    simp
+
+/-- what the reader returns is its own canonical form: the predicates of the properties (`checkStorage`, `checkDfu`, `checkRecord`, `checkMerge`, which
+look at `canon img`) look at the image itself -/
+theorem read_canon (text : String) (c : Image) (h : read text = some c) : canon c = some c := canon_fixed c (read_sep text c h)
+
 end SuitVerif.IHex
